@@ -9,7 +9,7 @@ from canon import coq_fs, coq_z, coq_list, coq_opt, coq_res
 ID = "C10"
 LEVEL = "proof"
 PROPS_FILE = "Props/C10.v"
-EXTRA_PROPS = ("Props/C10Tie.v",)
+EXTRA_PROPS = ("Props/C10Tie.v", "Props/C10TieWas.v", "Props/C10TieFsWas.v")
 CORR_VO = "Corr/C10.vo"
 REQUIRE = "From Curtsies Require Import Model.Base Model.Width Corr.C10.\nImport C10."
 CASE_TYPE = "C10.case"
@@ -46,10 +46,15 @@ RULE = ("EXHAUSTIVE part: every string over {a, b, U+FF25 (width 2), U+0300 (wid
         "non-trivial = at least one wide or zero-width character and at least one slice query; distinct = distinct "
         "(runs, queries)")
 GENERATORS = ("gen/gen_pure.py",)
-PURE_HELPERS = ('interval_overlap',)
+PURE_HELPERS = ('interval_overlap', 'width_aware_slice', 'FmtStr_width_aware_slice')
 TRUSTED = [
-    "translator gen/gen_pure.py (dumps the Python AST of interval_overlap node by node into coq/Gen/Pure.v) and the reference "
-    "semantics of that Python subset coq/Spec/PyMini.v, itself run against CPython on enumerated arguments in every check",
+    "translator gen/gen_pure.py (dumps the Python AST of interval_overlap, width_aware_slice and FmtStr.width_aware_slice node by "
+    "node into coq/Gen/Pure.v, coq/Gen/PureFmt.v) and the reference semantics of that Python subset coq/Spec/PyMini.v (for loops "
+    "over lists / str / zip, break, continue, objects as records of instance attributes, local lists with append / extend), "
+    "itself run against CPython on enumerated arguments in every check",
+    "oracles of coq/Spec/PyEnvFmt.v used by the ties of the two width_aware_slice: wcwidth(c) = wc c (wc arbitrary), "
+    "wcswidth(s) = sum or -1, chunk.width, fs.width, fs.s, Chunk(s, atts), FmtStr(*parts), fmtstr(''); validated against the "
+    "real functions on enumerated strings / FmtStrs with wide, combining and control characters in every check",
     "Coq 8.16.1 kernel incl. vm_compute (no native_compute); Print Assumptions: closed under the global context",
     "reference notions coq/Spec/Columns.v (column expansion of cells, cut of orphaned halves, firstn/skipn; per character: "
     "positions, keep_char, slice_ref, marks_in_range - functions of the cells alone)",
